@@ -6,7 +6,7 @@ cd /verif
 IDS=("$@"); [ ${#IDS[@]} -eq 0 ] && IDS=($(ls seeded))
 declare -A ALT=( [C04-B]="C08" [C09-A]="C09 C08" )
 for id in "${IDS[@]}"; do
-  prop=${id%%-*}; prop=${prop%r2}; prop=${prop%r3}; checks=${ALT[$id]:-$prop}
+  prop=${id%%-*}; prop=${prop%r2}; prop=${prop%r3}; prop=${prop%r4}; checks=${ALT[$id]:-$prop}
   PATCHF=/verif/seeded/$id/patch.diff; [ -f /verif/seeded/$id/patch.rebased.diff ] && PATCHF=/verif/seeded/$id/patch.rebased.diff
   if ! git -C /repo diff --quiet; then echo "$id: /repo dirty, stopping"; exit 3; fi
   if ! git -C /repo apply --check $PATCHF 2>/dev/null; then echo "$id: PATCH-DOES-NOT-APPLY"; continue; fi
